@@ -444,7 +444,9 @@ var mutators = []mutator{
 			t.TxOut = append(t.TxOut, txOut(a, kTrue))
 		}
 		c.resign(1)
-		c.mode = "V" // the tx then also spends more than its inputs
+		if a != -1 {
+			c.mode = "V" // the tx then also spends more than its inputs
+		}
 	}},
 	// spends more than its inputs by one satoshi / exactly its inputs (zero fee)
 	{"spend", []int64{0, 1}, always, func(c *cand, a int64) {
@@ -462,6 +464,15 @@ var mutators = []mutator{
 		s := c.sp(c.bs.cbOp(2, kTrue))
 		n := spend{op: *wire.NewOutPoint(&chainhash.Hash{}, wire.MaxPrevOutIndex), c: coin{script: pkScriptOf(kTrue)}, seq: wire.MaxTxInSequenceNum}
 		c.txs = append(c.txs, c.bs.b.mkTx(1, 0, []spend{s, n}, []*wire.TxOut{txOut(s.c.amount-fee, kTrue)}))
+	}},
+	// transaction without inputs / block without transactions
+	{"noinputs", []int64{0}, always, func(c *cand, a int64) {
+		c.txs = append(c.txs, c.bs.b.mkTx(1, 0, nil, []*wire.TxOut{txOut(0, kTrue)}))
+	}},
+	{"notx", []int64{0}, always, func(c *cand, a int64) {
+		c.rawFirst = []*wire.MsgTx{}
+		c.txs = nil
+		c.commit = "none"
 	}},
 	// transaction without outputs
 	{"nooutputs", []int64{0}, always, func(c *cand, a int64) {
